@@ -19,7 +19,7 @@ import numpy as np
 from vlib import dsl, gen
 from vlib.fitcase import Member, norm_op
 from vlib.models import Model
-from vlib.monitor import Tol, allclose, fmt_exc, maxdiff, numerical_failure
+from vlib.monitor import FaultyHandle, InjectedFault, Tol, allclose, fmt_exc, maxdiff, numerical_failure
 from vlib.ref import COST_ALIASES, NEEDS_ERRORS, POISSON, pd_info
 
 PROPERTY = "C03"
@@ -77,7 +77,7 @@ def floors(tier):
         "ops": MUTATORS + ["read"],
         "reach": ["%s:%s" % a for a in ANCHORS],
         "sets": {"observables_read": 50, "mutator_read_bigrams": 100, "fit_configs": 10},
-        "strata": ["xy", "indexed", "hist", "unbinned", "iterative", "nonlinear", "iminuit", "scipy", "read-before-and-after-mutator"],
+        "strata": ["xy", "indexed", "hist", "unbinned", "iterative", "nonlinear", "iminuit", "scipy", "read-before-and-after-mutator", "do_fit-failed-half-way"],
         "distinct_nontrivial": 60,
     }
 
@@ -272,7 +272,11 @@ def make_op(kind, rng, case, ref, state, n_do_fit):
     if kind == "set_data":
         return gen_set_data(rng, case, ref)
     if kind == "do_fit":
-        return ["do_fit"] if n_do_fit < 2 else None
+        if n_do_fit >= 2:
+            return None
+        # now and then the minimisation fails half way (the cost function raises at its k-th evaluation): whatever do_fit pins for the
+        # duration of the minimisation must be released all the same
+        return ["do_fit"] if rng.random() > 0.25 else ["do_fit", {"fail_at": int(rng.choice([3, 8, 15, 30]))}]
     raise KeyError(kind)
 
 
@@ -355,11 +359,29 @@ def gen_set_data(rng, case, ref):
 
 
 # ------------------------------------------------------------------ twins
+def do_fit_op(fit, op):
+    """do_fit, optionally with a cost function that raises at its k-th evaluation.  Returns 'ok' | 'failed' (injected failure surfaced)."""
+    k = op[1].get("fail_at") if len(op) > 1 and isinstance(op[1], dict) else None
+    if not k:
+        fit.do_fit()
+        return "ok"
+    mini = fit._fitter.minimizer
+    genuine = mini._func_handle
+    mini._func_handle = FaultyHandle(genuine, k)
+    try:
+        fit.do_fit()
+        return "ok"
+    except InjectedFault:
+        return "failed"
+    finally:
+        mini._func_handle = genuine
+
+
 def build_T1(case, mutators):
     mb = Member(case["spec"])
     for op in mutators:
         if op[0] == "do_fit":
-            mb.fit.do_fit()
+            do_fit_op(mb.fit, op)
             mb.sync_from_fit()
         else:
             mb.apply(op)
@@ -602,7 +624,8 @@ def run_case(ctx, case):
                         executed.pop()
                         continue
                     try:
-                        live.fit.do_fit()
+                        if do_fit_op(live.fit, op) == "failed":
+                            ctx.stratum("do_fit-failed-half-way")
                     except Exception as e:
                         # ill-posed problem (singular / nan numerical Hessian at the optimum): not a statement about history dependence
                         if numerical_failure(e):
